@@ -20,4 +20,24 @@ def prioBodyLen (ds : List (Vals × List Nat)) : Nat := ds.foldr (fun d acc => 8
 def encReportPriority (ds : List (Vals × List Nat)) : List Nat :=
   toBytes (prioBodyLen ds) 4 ++ (ds.map encPriorityDescriptor).flatten
 
+
+
+/-! ## REPORT TARGET PORT GROUPS (SPC-4 6.37) -/
+
+/-- target port group descriptor: 8 fixed bytes (TARGET PORT COUNT at byte 7) + one 4-byte target
+    port descriptor per port -/
+def encTpg (g : Vals × List Vals) : List Nat :=
+  tpgDescriptor.enc g.1 ++ (g.2.map targetPortDescriptor.enc).flatten
+
+def tpgBodyLen (gs : List (Vals × List Vals)) : Nat := gs.foldr (fun g acc => 8 + 4 * g.2.length + acc) 0
+
+/-- length only header format: RETURN DATA LENGTH (n−3), then the descriptors -/
+def encRtpg (gs : List (Vals × List Vals)) : List Nat :=
+  toBytes (tpgBodyLen gs) 4 ++ (gs.map encTpg).flatten
+
+/-- extended header format: RETURN DATA LENGTH (n−3), FORMAT TYPE 001b / IMPLICIT TRANSITION TIME /
+    two reserved bytes, then the descriptors -/
+def encRtpgExt (h : Vals) (gs : List (Vals × List Vals)) : List Nat :=
+  toBytes (4 + tpgBodyLen gs) 4 ++ rtpgExtHeader.enc h ++ (gs.map encTpg).flatten
+
 end Std
